@@ -959,8 +959,115 @@ func runPaths(t *tr.Trace, r *tr.Rand, n int) {
 		d.deleteAction(sb, s)
 	}
 
+	// static files: whatever path reaches the file handler (the mux does not
+	// clean the path of a CONNECT request, and handlers can be reached
+	// directly), nothing outside the static directory is served
+	t.History("paths", "fs-static")
+	d.staticFiles(sb, append(append([]string{}, corpus...), short...))
+
+	// deleting a group definition removes that file and nothing else: no file
+	// or directory next to the groups directory, whatever the name aliases
+	t.History("paths", "fs-delete-desc")
+	for _, s := range append([]string{"recordings/x", "../recordings/x", "../empty/x", "a/../../recordings/x", "empty/x", "../data/config", "x/../../in/empty/x", "..", "../.."}, corpus...) {
+		d.deleteDesc(sb, s)
+	}
+
 	t.History("paths", "fs-sentinel")
 	d.sentinel(sb)
+}
+
+const staticSecret = "C19-SECRET-OUTSIDE-THE-STATIC-DIRECTORY"
+
+func (d *drv) staticFiles(sb *sandbox, names []string) {
+	t := d.t
+	static := filepath.Join(sb.root, "in", "static")
+	os.WriteFile(filepath.Join(static, "index.html"), []byte("<html>static index</html>"), 0600)
+	os.MkdirAll(filepath.Join(static, "sub"), 0700)
+	os.WriteFile(filepath.Join(static, "sub", "f.js"), []byte("// static file"), 0600)
+	os.WriteFile(filepath.Join(sb.data, "secret-c19.txt"), []byte(staticSecret), 0600)
+	defer os.Remove(filepath.Join(sb.data, "secret-c19.txt"))
+	site, err := webserver.VerifSiteHandler(static)
+	if err != nil {
+		t.Fail("C19", "harness", err.Error())
+		return
+	}
+	paths := []string{"/index.html", "/sub/f.js", "/../data/secret-c19.txt", "/sub/../../data/secret-c19.txt", "/../../in/data/secret-c19.txt",
+		"/..\\data\\secret-c19.txt", "/%2e%2e/data/secret-c19.txt", "/sub/../../../in/data/secret-c19.txt", "//../data/secret-c19.txt",
+		"/./../data/secret-c19.txt", "/../data/config.json", "/../groups/", "/../../outside/sentinel"}
+	for _, n := range names {
+		paths = append(paths, "/"+n, "/../data/"+n, "/sub/"+n)
+	}
+	served := 0
+	for _, p := range paths {
+		for _, method := range []string{"GET", "HEAD", "CONNECT", "POST"} {
+			req := httptest.NewRequest("GET", "http://localhost/x", nil)
+			req.Method = method
+			req.URL.Path = p
+			req.URL.RawPath = ""
+			w := httptest.NewRecorder()
+			func() {
+				defer func() { recover() }()
+				site.ServeHTTP(w, req)
+			}()
+			t.Checked("C19.static_confined")
+			body := w.Body.String()
+			if w.Code == 200 {
+				served++
+			}
+			if strings.Contains(body, staticSecret) || strings.Contains(body, `"writableGroups"`) {
+				t.Fail("C19", "static-escape", fmt.Sprintf("%s %q was answered %d with the content of a file outside the static directory", method, p, w.Code))
+			}
+			if w.Code == 200 && (p == "/../../outside/sentinel") {
+				t.Fail("C19", "static-escape", fmt.Sprintf("%s %q was answered 200", method, p))
+			}
+		}
+	}
+	if served > 0 {
+		t.Nontrivial("static/served")
+	}
+}
+
+func (d *drv) deleteDesc(sb *sandbox, name string) {
+	t := d.t
+	sb.resetGroups()
+	// nested definitions, and empty directories / a file NEXT to the groups directory
+	for _, g := range []string{"recordings/x", "empty/x", "keep"} {
+		if err := group.UpdateDescription(g, "", &group.Description{}); err != nil {
+			t.Fail("C19", "harness", "cannot create the group "+g+": "+err.Error())
+			return
+		}
+	}
+	in := filepath.Dir(sb.groups)
+	os.MkdirAll(filepath.Join(in, "recordings"), 0700)
+	os.MkdirAll(filepath.Join(in, "empty"), 0700)
+	os.WriteFile(filepath.Join(in, "x.json"), []byte("{}"), 0600)
+	defer func() {
+		os.Remove(filepath.Join(in, "recordings"))
+		os.Remove(filepath.Join(in, "empty"))
+		os.Remove(filepath.Join(in, "x.json"))
+	}()
+	// a conditional delete with the current tag of whatever the name designates
+	tag, _ := group.GetDescriptionTag(name)
+	before := sb.snapshot()
+	err := group.DeleteDescription(name, tag)
+	after := sb.snapshot()
+	_, removed := d.confinedChange(fmt.Sprintf("DeleteDescription(%q)", name), "api-escape", sb.groups, before, after)
+	t.Checked("C19.delete_desc_exact")
+	if err == nil {
+		t.Note("deletedesc-ok")
+		want := filepath.Join(sb.groups, path.Clean("/"+name)+".json")
+		foundWant := false
+		for _, p := range removed {
+			if p == want {
+				foundWant = true
+			}
+		}
+		if !foundWant {
+			t.Fail("C19", "delete_desc_exact", fmt.Sprintf("DeleteDescription(%q) succeeded and removed %v, not %q", name, removed, want))
+		}
+	} else if len(removed) != 0 {
+		t.Fail("C19", "delete_desc_exact", fmt.Sprintf("DeleteDescription(%q) failed (%v) but removed %v", name, err, removed))
+	}
 }
 
 func main() { tr.Main(runPaths) }
